@@ -238,6 +238,9 @@ class Program:
         for r in TRANSPARENT_RE:
             if r.match(path) and args:
                 return args[0]
+        if path.endswith("::from_residual") and "option::Option" in path:
+            # `o?` on None: the enclosing function's Option result is None
+            return ("enum", "core::option::Option", "None")
         if len(args) == 2 and "PartialEq" in path:
             from .an import mk_bin
             if path.endswith("::eq"):
